@@ -245,7 +245,7 @@ def run(ctx):
     check_frame(ctx, wm)
     from .common import dt_weaver, DT_RULE
     ctx.rule('C08.5', DT_RULE)
-    dt_weaver(ctx, 'C08.5', wm, list(wm.methods))
+    dt_weaver(ctx, 'C08.5', wm, DOMAIN_OPS)
     ctx.rule('C08.4', 'no in-place write site reachable from a Weaver method has the reference or the original in its alias class')
     ctx.notes.append('History quantifier discharged by induction: Inv-R/Inv-W established by C08.1, preserved by C08.2 (domain) and C08.3 (all other methods).')
     ctx.notes.append('NOT DECIDED here: that each transformation is the documented one (C11, C12, C14, C17); the numeric corollary about recreate+match.')
